@@ -124,7 +124,7 @@ func runC18(c vt.Case) vt.Event {
 	errs := 0
 	for _, tenant := range vt.Strs(c["tenants"]) {
 		for k := 0; k < vt.Int(c["nseries"]); k++ {
-			ts := series(vt.Int64(c["sseed"]), k)
+			ts := seriesMixed(vt.Int64(c["sseed"]), k)
 			reps, err := getReplicas(base, tenant, ts, rf)
 			if err != nil {
 				errs++
